@@ -221,3 +221,25 @@ Definition rank_report (d P : nat) (comms : nat -> option node_comms) (count : n
   let w := write_start comms f r in
   (shmem_allgather P comms f contrib r, shmem_prefix (wrap_of d) P comms count f contrib r, w,
    (calls_malloc sh, calls_allgather sh w, calls_prefix (prescan_on comms f r) sh w, calls_memcpy sh w, calls_free sh)).
+
+(* ---- life cycle of the attached communicators (sc_mpi.c: attach / detach / the attribute callbacks) ------------- *)
+(* `live`: the communicators created through this communicator's node-comm attribute and not yet freed (ids in
+   creation order); `attr`: the value of the attribute sc_mpi_node_comm_keyval = the pair (intranode, internode). *)
+Record lstate := mk_ls { live : list nat; next_id : nat; attr : option (nat * nat) }.
+Definition l_new (s : lstate) : nat * lstate := (next_id s, mk_ls (next_id s :: live s) (S (next_id s)) (attr s)).
+Definition l_free (c : nat) (s : lstate) : lstate := mk_ls (remove Nat.eq_dec c (live s)) (next_id s) (attr s).
+(* MPI_Comm_delete_attr runs sc_mpi_node_comms_destroy: both communicators are freed *)
+Definition l_detach (s : lstate) : lstate :=
+  match attr s with
+  | Some (a, b) => mk_ls (remove Nat.eq_dec b (remove Nat.eq_dec a (live s))) (next_id s) None
+  | None => s
+  end.
+(* MPI_Comm_set_attr deletes an old value first (delete callback), then stores the new one *)
+Definition l_set_attr (v : nat * nat) (s : lstate) : lstate :=
+  let s' := l_detach s in mk_ls (live s') (next_id s') (Some v).
+(* sc_mpi_comm_attach_node_comms: explicit -> two splits; split_type -> one split_type, then either the second
+   split or (node sizes differ) the first communicator is freed again and nothing is attached *)
+Definition l_attach (explicit equal : bool) (s : lstate) : lstate :=
+  let '(a, s1) := l_new s in
+  if explicit || equal then let '(b, s2) := l_new s1 in l_set_attr (a, b) s2 else l_free a s1.
+Definition l_get (s : lstate) : option (nat * nat) := attr s.
